@@ -559,6 +559,16 @@ func (obj *Package) Undefine(name string) {
 	// A function inherited from a used package is not the package's to remove.
 	if fi := obj.funcs[name]; fi != nil && (fi.Pkg == obj || fi.Pkg == nil || obj.Imports[name] != nil) {
 		delete(obj.funcs, name)
+		// Calls that have been compiled refer to the registered lambda. It
+		// becomes the lambda of a function that is not defined, as for a call
+		// compiled before the definition, so that those calls signal an
+		// undefined-function error and follow the next definition.
+		if lam := obj.lambdas[name]; lam != nil {
+			lam.Doc = &FuncDoc{Name: name, Args: []*DocArg{{Name: AmpRest}, {Name: "args"}}}
+			lam.Forms = List{Undefined(name)}
+			lam.Closure = nil
+			lam.Macro = false
+		}
 		for _, u := range obj.Users {
 			u.mu.Lock()
 			if u.funcs[name] == fi {
